@@ -25,7 +25,7 @@ ASSUMPTIONS = [
 ]
 REAL_VS_STUB = {"real": ["stackscope incl. ctypes frame reads", "real threads, real GIL hand-over at blocking calls", "sys.monitoring / sys.settrace instrumentation of stackscope's own code objects"],
                 "stub": ["generated sync programs", "controller deciding every hand-over", "shadow managers"]}
-RARE_PROBES = ["retry_loop_taken", "snapshot_rejected", "target_frame_returned_during_inspect", "thread_exited_during_extract", "unstarted_checked", "finished_checked", "preempt_yields"]
+RARE_PROBES = ["ident_reused", "loop_template_targets", "retry_loop_taken", "snapshot_rejected", "target_frame_returned_during_inspect", "thread_exited_during_extract", "unstarted_checked", "finished_checked", "preempt_yields"]
 LEGS = [
     {"name": "blocked312", "python": "3.12", "quick": 500, "thorough": 15000, "quick_s": 50, "thorough_s": 400, "run_timeout": 120, "crash_is_violation": True, "params": {"mode": "blocked"}},
     {"name": "blocked311", "python": "3.11", "quick": 250, "thorough": 6000, "quick_s": 40, "thorough_s": 300, "run_timeout": 120, "crash_is_violation": True, "params": {"mode": "blocked"}},
@@ -103,6 +103,35 @@ def run_blocked(ctx):
                     compare_blocked(ctx, other, st)
                     ctx.log("B", other.name, len(st.frames))
         ctx.case["schedule"] = sched
+        # thread identifiers are reused: a thread started right after another one has
+        # exited usually gets the same ident, and sys._current_frames() is keyed by ident.
+        # A finished thread must still give no frames (not the newcomer's).
+        if t.choose(2) == 0:
+            victim = tgs[0]
+            victim.finish()
+            dead_idents = set(tg.thread.ident for tg in tgs if tg.done)
+            tiny = "def f0(W):\n    F = W.frame('f0')\n    W.rel(); W.acq()\n    W.rel(); W.acq()\n"
+            reused = None
+            for attempt in range(8):
+                newcomer = threads.Target(ctx, "N%d" % attempt, text=tiny)
+                tgs.append(newcomer)
+                newcomer.start()
+                if newcomer.thread.ident in dead_idents:
+                    reused = newcomer
+                    break
+            if reused is not None:
+                ctx.stat("ident_reused")
+                for old in tgs:
+                    if old.done and old.thread.ident == reused.thread.ident:
+                        st = stackscope.extract(old.thread)
+                        if st.frames or st.error is not None:
+                            raise Violation(
+                                "c07_finished_thread",
+                                "extract(finished thread) -> frames %r although the thread is dead (its ident has been reused by a new thread)" % ([f.funcname for f in st.frames],),
+                                {},
+                            )
+                st = stackscope.extract(reused.thread)
+                compare_blocked(ctx, reused, st)
     finally:
         for tg in tgs:
             tg.finish()
@@ -143,7 +172,13 @@ def run_racing(ctx):
 
     t = ctx.tape
     n = 1 + t.weighted([3, 1])
-    tgs = [threads.Target(ctx, "T%d" % i) for i in range(n)]
+    tgs = []
+    for i in range(n):
+        if t.choose(3) == 0:
+            ctx.stat("loop_template_targets")
+            tgs.append(threads.Target(ctx, "T%d" % i, text=threads.loop_template(t)))
+        else:
+            tgs.append(threads.Target(ctx, "T%d" % i))
     ctx.case["programs"] = [tg.program for tg in tgs]
     ctx.case.pop("program", None)
     codes = instrumented_codes()
@@ -156,7 +191,11 @@ def run_racing(ctx):
             # one call per attempt of the consistency loop (+ one after it)
             state["pet_starts"] = state.get("pet_starts", 0) + 1
         # the tape decides whether the inspected thread(s) make progress here
-        c = t.weighted([14, 3, 1, 1, 1])
+        # most boundaries pass quietly: a run should make real progress between hand-overs
+        # (but the slot-reading loop of inspect_frame - its backward jumps - is where a
+        # hand-over matters most, so boundaries there are much more likely to be taken)
+        hot = kind == "backjump" and names.get(id(code)) == "inspect_frame"
+        c = t.weighted([5, 4, 2, 1, 1] if hot else [60, 4, 2, 1, 1])
         if c == 0:
             return False
         live = [tg for tg in tgs if not tg.done]
@@ -207,7 +246,7 @@ def run_racing(ctx):
                 # extract(thread) under pre-emption
                 state["snapshots"] = None
                 before_dead = tg.done
-                with Preempt(codes, on_boundary) as pre:
+                with Preempt(codes, on_boundary, max_yields=1 + t.choose(4)) as pre:
                     try:
                         with warnings.catch_warnings():
                             warnings.simplefilter("ignore")
@@ -244,7 +283,7 @@ def run_racing(ctx):
                 with_info = _lowlevel.analyze_with_blocks(fr.f_code)
                 res = None
                 state["pet_starts"] = 0
-                with Preempt(codes, on_boundary) as pre:
+                with Preempt(codes, on_boundary, max_yields=1 + t.choose(4)) as pre:
                     try:
                         res = lowlevel.inspect_frame(fr)
                     except Exception as e:
